@@ -248,7 +248,9 @@ def run(tier):
                 want = ('ok', out)
             except Unknown as e:
                 want = ('err', str(e), True)
-            ok = (real[0] == want[0]) and (real[1] == want[1] if real[0] == 'ok' else (real[2] and real[1] == want[1]))
+            # on failure the property asks for a compilation error; which of several undefined names is
+            # reported is not part of it (the model-vs-code correspondence below still compares the name)
+            ok = (real[0] == want[0]) and (real[1] == want[1] if real[0] == 'ok' else real[2])
             if want[0] == 'err':
                 stats['errors_expected'] += 1
             if not ok:
